@@ -74,12 +74,13 @@ impl Prop for C08 {
         f.push(Family::new(
             "switched-conventions",
             Mode::Full,
-            &format!("ONE calculator whose separators are switched with set_decimal_seperator / set_thousand_separator between evaluations: every sequence of 2..={} conventions; after every switch each of the 12 literals (plain and grouped) and three lines (a product, a currency conversion, a unit conversion through a variable) written in the current convention is evaluated: it denotes the intended number whatever was read before the switch", ds),
+            &format!("ONE calculator whose separators are switched with set_decimal_seperator / set_thousand_separator between evaluations: every sequence of 2..={} (convention, order of the two setter calls) steps; after every switch each of the 12 literals (plain and grouped) and three lines (a product, a currency conversion, a unit conversion through a variable) written in the current convention is evaluated: it denotes the intended number whatever was read before the switch", ds),
             move |ch| {
                 let n = 2 + ch.choose(ds - 1);
                 let mut seq = Vec::new();
                 for _ in 0..n {
-                    seq.push(ch.choose(4));
+                    // 0..=3: decimal separator set first, 4..=7: thousands separator set first
+                    seq.push(ch.choose(8));
                 }
                 Some(Case::Switched(seq))
             },
@@ -93,12 +94,17 @@ impl Prop for C08 {
             Case::Switched(seq) => {
                 let lits = ["0.5", "1.5", "0.25", "12.5", "0.001", "999.995", "1234.5", "1000", "1000000", "1234567.125", "-2.5", "-1234.5"];
                 let mut calc = ctx.fresh(&Cfg::default());
-                let mut v = Verdict { input: format!("switch {:?}", seq.iter().map(|k| format!("{}|{}", convs[*k].dec, convs[*k].thou)).collect::<Vec<_>>()), class: "literal-compared", compared: true, expected: "every literal denotes the intended number after every switch".into(), ..Default::default() };
+                let mut v = Verdict { input: format!("switch {:?}", seq.iter().map(|k| format!("{}|{}{}", convs[*k % 4].dec, convs[*k % 4].thou, if *k >= 4 { " (thousands first)" } else { "" })).collect::<Vec<_>>()), class: "literal-compared", compared: true, expected: "every literal denotes the intended number after every switch".into(), ..Default::default() };
                 let mut trace = String::new();
                 for (step, k) in seq.iter().enumerate() {
-                    let conv = &convs[*k];
-                    calc.set_decimal_seperator(conv.dec.clone());
-                    calc.set_thousand_separator(conv.thou.clone());
+                    let conv = &convs[*k % 4];
+                    if *k >= 4 {
+                        calc.set_thousand_separator(conv.thou.clone());
+                        calc.set_decimal_seperator(conv.dec.clone());
+                    } else {
+                        calc.set_decimal_seperator(conv.dec.clone());
+                        calc.set_thousand_separator(conv.thou.clone());
+                    }
                     for c in lits.iter() {
                         for g in [false, true] {
                             let text = lit::render(c, conv, g);
